@@ -310,7 +310,9 @@ impl LogStore for FileLogStore {
             verif_crashpoint::hit("log:persist:flushed");
         }
 
-        self.last_index.store(max_index, Ordering::SeqCst);
+        // A batch may re-write or lie below the current end: last_index is the greatest stored
+        // index, not the greatest index of this batch.
+        self.last_index.fetch_max(max_index, Ordering::SeqCst);
         Ok(())
     }
 
